@@ -4,11 +4,23 @@ From Coq Require Import List Bool NArith ZArith.
 From MV Require Import Base.Bytes Model.Headers.
 Import ListNotations.
 
+(* every read view of the real Headers object, observed on object 0 before the history and on the
+   touched object after every operation: items(), keys(), values() (None = an exception escaped),
+   items/keys/values(multi=True), list(h), len(h), bytes(h), h.copy() == h, h.copy().fields, and
+   get_all / __getitem__ / __contains__ for a few probe names *)
+Inductive view :=
+| View (its : option (list field)) (ks vs : option (list bytes))
+       (itm : list field) (km vm : list bytes) (it : list bytes) (ln : N) (b : bytes)
+       (ceq : bool) (cf : list field)
+       (probes : list (bytes * list bytes * option bytes * bool)).
+
 Inductive case :=
 (* two header objects built from init0/init1, a history of operations, the result of every
-   operation with the fields tuple of the touched object after it, and both final fields tuples *)
+   operation with the fields tuple of the touched object after it, both final fields tuples, and
+   the read views (one for init0, then one per operation) *)
 | Hist (init0 init1 : list field) (ops : list op)
        (impl_obs : list (result * list field)) (impl_final0 impl_final1 : list field)
+       (impl_views : list view)
 (* bytes(Headers(fields)); h11 lines of bytes + CRLF; _read_headers of those lines *)
 | Rt (fields : list field) (impl_bytes : bytes) (impl_lines : option (list bytes))
      (impl_parsed : option rh_result)
@@ -40,12 +52,38 @@ Definition rh_eqb (a b : rh_result) : bool :=
   | _, _ => false
   end.
 
+Definition obl_eqb := option_eqb (list_eqb bytes_eqb).
+
+Definition probe_ok (fs : list field) (p : bytes * list bytes * option bytes * bool) : bool :=
+  let '(k, ga, gi, co) := p in
+  list_eqb bytes_eqb (get_all fs k) ga && option_eqb bytes_eqb (getitem fs k) gi
+  && Bool.eqb (contains fs k) co.
+
+Definition view_ok (fs : list field) (v : view) : bool :=
+  match v with
+  | View its ks vs itm km vm it ln b ceq cf probes =>
+      option_eqb fields_eqb (items fs) its && obl_eqb (keys fs) ks && obl_eqb (values fs) vs
+      && fields_eqb (items_multi fs) itm && list_eqb bytes_eqb (keys_multi fs) km
+      && list_eqb bytes_eqb (values_multi fs) vm && list_eqb bytes_eqb (iter fs) it
+      && N.eqb (len fs) ln && bytes_eqb (headers_bytes fs) b
+      && Bool.eqb (eq (copy fs) fs) ceq && fields_eqb (copy fs) cf
+      && forallb (probe_ok fs) probes
+  end.
+
+Fixpoint views_ok (fss : list (list field)) (vs : list view) : bool :=
+  match fss, vs with
+  | [], [] => true
+  | fs :: fss', v :: vs' => view_ok fs v && views_ok fss' vs'
+  | _, _ => false
+  end.
+
 Definition check_case (c : case) : bool :=
   match c with
-  | Hist i0 i1 ops obs f0 f1 =>
+  | Hist i0 i1 ops obs f0 f1 views =>
       let '(mobs, mst) := run_ops (i0, i1) ops in
       list_eqb (pair_eqb result_eqb fields_eqb) mobs obs
       && fields_eqb (fst mst) f0 && fields_eqb (snd mst) f1
+      && views_ok (i0 :: map snd mobs) views
   | Rt fs b ls p =>
       bytes_eqb (headers_bytes fs) b
       && option_eqb (list_eqb bytes_eqb) (maybe_extract_lines (b ++ CRLF)) ls
